@@ -42,7 +42,6 @@ structure HcInv (s : State F) : Prop where
   pr : ∃ W M, PRecv.Inv W M s.pr
   /-- rate controller -/
   rate : RateInv s.rate s.nowMs
-  rmax : s.rate.maxSendRate < 2^31
   /-- clocks -/
   sync : s.syncTimeoutBase ≤ s.nowMs
   clock : s.nowMs = (lastNow s - s.timeBase) / 1000000
@@ -64,7 +63,6 @@ theorem HcInv.congr {s s' : State F} (h : HcInv s) (hps : s'.ps = s.ps)
   fqt := by rw [hfq, hnow]; exact h.fqt
   pr := hpr
   rate := by rw [hrate, hnow]; exact h.rate
-  rmax := by rw [hrate]; exact h.rmax
   sync := by rw [hsync, hnow]; exact h.sync
   clock := by
     have := h.clock
@@ -73,8 +71,8 @@ theorem HcInv.congr {s s' : State F} (h : HcInv s) (hps : s'.ps = s.ps)
 
 /-! ### configuration and `init` -/
 
-/-- Side conditions on the configuration (all satisfied by `Endpoint.hcConfig` except the last,
-which is a condition on the negotiated bandwidth limit, see `C03Rate`). -/
+/-- Side conditions on the configuration (all satisfied by `Endpoint.hcConfig`). There is no condition
+on `txBandwidthLimit`: the slow-start doubling of the rate controller saturates (see `C03Rate`). -/
 structure CfgOk (c : Config) : Prop where
   txFrameBase : c.txFrameBaseId < 2^32
   txFrameWin : c.txFrameWindowSize + c.txFrameWindowSize < 2^31
@@ -82,14 +80,13 @@ structure CfgOk (c : Config) : Prop where
   txPacketWin : c.txPacketWindowSize < 2^20
   rxPacketBase : c.rxPacketBaseId < 2^20
   rxPacketWin : 0 < c.rxPacketWindowSize
-  bandwidth : c.txBandwidthLimit < 2^31
 
 instance (c : Config) : Decidable (CfgOk c) :=
   if h : c.txFrameBaseId < 2^32 ∧ c.txFrameWindowSize + c.txFrameWindowSize < 2^31 ∧
       c.txPacketBaseId < 2^20 ∧ c.txPacketWindowSize < 2^20 ∧ c.rxPacketBaseId < 2^20 ∧
-      0 < c.rxPacketWindowSize ∧ c.txBandwidthLimit < 2^31 then
-    isTrue ⟨h.1, h.2.1, h.2.2.1, h.2.2.2.1, h.2.2.2.2.1, h.2.2.2.2.2.1, h.2.2.2.2.2.2⟩
-  else isFalse fun h' => h ⟨h'.1, h'.2, h'.3, h'.4, h'.5, h'.6, h'.7⟩
+      0 < c.rxPacketWindowSize then
+    isTrue ⟨h.1, h.2.1, h.2.2.1, h.2.2.2.1, h.2.2.2.2.1, h.2.2.2.2.2⟩
+  else isFalse fun h' => h ⟨h'.1, h'.2, h'.3, h'.4, h'.5, h'.6⟩
 
 theorem hcInv_init (ops : FloatOps F) (c : Config) (now : Nat) (rng : Rng) (hc : CfgOk c) :
     HcInv (init ops c now rng) where
@@ -102,7 +99,6 @@ theorem hcInv_init (ops : FloatOps F) (c : Config) (now : Nat) (rng : Rng) (hc :
   fqt := FrameQ.FqTime_init _ _ _ _
   pr := ⟨_, _, PRecv.inv_init _ _ _ hc.rxPacketWin hc.rxPacketBase⟩
   rate := Rate.RateInv_init ops _ _
-  rmax := hc.bandwidth
   sync := Nat.le_refl _
   clock := by simp [init, lastNow]
 
@@ -128,7 +124,6 @@ theorem send_ok (s : State F) (data : List Nat) (chan : Nat) (mode : SendMode) (
     fqt := h.fqt
     pr := h.pr
     rate := h.rate
-    rmax := h.rmax
     sync := h.sync
     clock := h.clock }
 
